@@ -239,7 +239,7 @@ INFO = {
     "C07-j": (["C07"], "missed at first", "a single (non-list) value for a list position through every route incl. JSON variables; a JSON object where a list of scalars / enums is expected as a wrong variant"),
     "C08-j": (["C08"], "caught as written", None),
     "C09-j": (["C09"], "caught (generator extended before the first run)", "one object type as query AND mutation root in a quarter of the mutation cases"),
-    "C10-j": (["C04"], "missed by C10 at VERIF_SEED=1, caught by C04 (`error-paths-differ`)", "none: the clause (a null in a non-null position has its error) is decided by the same reference executor in both checks; C10 meets a null-serialising custom scalar in a non-null position less often"),
+    "C10-j": (["C04", "C10"], "missed by C10 in the first run at VERIF_SEED=1, caught by C04 (`error-paths-differ`); with the generators as they stand at the end of round 10 C10 catches it as well (`faulted-positions-and-errors-do-not-match`, harvest run)", "none specific: the clause (a null in a non-null position has its error) is decided by the same reference executor in both checks; C10 meets a null-serialising custom scalar in a non-null position less often than C04"),
     "C12-j": (["C12"], "caught (generator extended before the first run)", "String / ID defaults made of digits that are not 0-9"),
     "C15-j": (["C15"], "caught as written", None),
     "C16-j": (["C16"], "caught as written", None),
